@@ -28,6 +28,11 @@ def jobs_for(prop, checks=None, names=None):
     for nm, (j, props) in REG.items():
         if prop in props and (names is None or nm in names):
             out.append(j)
+        elif prop == "C06" and j.lang in ("cy", "c") and (names is None or nm in names):
+            # C06 at kernel level: only the frame obligations (read-only array parameters are not written)
+            fj = Job(j.module, j.func, j.contract, lang=j.lang, tag=j.tag + "[frame]")
+            fj.only_kinds = {"frame"}
+            out.append(fj)
     return out
 
 
@@ -938,3 +943,58 @@ _uses("RainfallClimateNetwork.spearman_corr[uses]", "climate/rainfall.py", "Rain
       ["shape(time_series_ranked,0)==shape(anomaly,0) and shape(time_series_ranked,1)==shape(anomaly,1)"],
       {"spearman_corr": ["shape(arg2,0)==arg0 and shape(arg2,1)==arg1", "shape(arg3,0)==arg0 and shape(arg3,1)==arg1"]},
       total="<=1")
+
+
+# ============================================================================ timeseries: twins of a recurrence plot (C15)
+# twins is a Python list of int lists, modelled by its multiplicity table mult(twins, j, k) (order inside an inner
+# list is not modelled).  TW(a,b): identical columns of R, equal non-trivial neighbour counts, temporal separation
+# of MORE than min_dist - the definition in the property statement.
+_TWG = {"req": ("int", "int", "bool"), "TW": ("int", "int", "bool")}
+_TWD = ["all(iff(req(a,b), all(R[a,q]==R[b,q] for q in range(N))) for a in range(N) for b in range(N))",
+        "all(iff(TW(a,b), (b<a-min_dist or a<b-min_dist) and nR[a]==nR[b] and nR[a]!=1 and req(a,b)) "
+        "for a in range(N) for b in range(N))"]
+K("_twins_r", "timeseries", props=("C15", "C20"), lists=("twins",),
+  requires=["N>=0", "min_dist>=0", "shape(R,0)==N", "shape(R,1)==N", "shape(nR,0)==N", "len(twins)==0", "N<=%d" % (INT32 - 2)],
+  ghost=_TWG, defs=_TWD,
+  ensures=["len(twins)==N+1",
+           "all(mult(twins,a,b)==ite(TW(a,b),1,0) for a in range(N) for b in range(N))"],
+  loops={"j": ["len(twins)==j+1",
+               "all(mult(twins,a,b)==ite(a<j and b<j and TW(a,b),1,0) for a in range(j+1) for b in range(N))"],
+         "j.k": ["len(twins)==j+2",
+                 "all(mult(twins,a,b)==ite(b<j and TW(a,b),1,0)+ite(b==j and a<k and TW(j,a),1,0) for a in range(j) for b in range(N))",
+                 "all(mult(twins,j,b)==ite(b<k and TW(j,b),1,0) for b in range(N))",
+                 "all(mult(twins,j+1,b)==0 for b in range(N))"],
+         "j.k.while": ["len(twins)==j+2", "0<=l and l<N", "all(R[j,q]==R[k,q] for q in range(l))",
+                       "nR[j]==nR[k] and nR[j]!=1",
+                       "all(mult(twins,a,b)==ite(b<j and TW(a,b),1,0)+ite(b==j and a<k and TW(j,a),1,0) for a in range(j) for b in range(N))",
+                       "all(mult(twins,j,b)==ite(b<k and TW(j,b),1,0) for b in range(N))",
+                       "all(mult(twins,j+1,b)==0 for b in range(N))"]},
+  rtc_prefs=["N==4", "min_dist==1", "all(R[a,q]==ite((a+q)%2==0,1,0) for a in range(4) for q in range(4))",
+             "all(nR[a]==2 for a in range(4))"], rtc_scope=4,
+  checks=("bounds", "narrow", "divzero"))
+
+
+# ============================================================================ frames
+# Output parameters of each kernel (everything else is read-only: the `frame` obligations prove that no other array
+# parameter is written - C06 at kernel level).
+_MODIFIES = {
+    "_embed_time_series": ["embedding"], "_embed_time_series_array": ["embedding"],
+    "_visibility_relations_no_missingvalues": ["A"], "_visibility_relations_horizontal": ["A"],
+    "_visibility_relations_missingvalues": ["A"],
+    "_calculate_angular_distance": ["cosangdist"], "_calculate_euclidean_distance": ["distance"],
+    "_randomly_rewire_geomodel_I": ["A", "edges"], "_randomly_rewire_geomodel_II": ["A", "edges"],
+    "_randomly_rewire_geomodel_III": ["A", "edges"],
+    "_randomlySetCrossLinks": ["A", "cross_A"], "_randomlyRewireCrossLinks": ["A", "cross_A", "cross_links"],
+    "_cross_local_clustering": ["cross_clustering"], "_set_adaptive_neighborhood_size": ["recurrence"],
+    "_bootstrap_distance_matrix_manhattan": ["distances"], "_bootstrap_distance_matrix_euclidean": ["distances"],
+    "_bootstrap_distance_matrix_supremum": ["distances"],
+    "_rejection_sampling": ["resampled_dist"], "_recurrence_plot": ["R"],
+    "_retarded_local_clustering": ["retarded_clustering"], "_advanced_local_clustering": ["advanced_clustering"],
+    "_symmetrize_by_absmax": ["similarity_matrix", "lag_matrix"],
+}
+for _nm in list(REG):
+    if "line_dist" in _nm:
+        _MODIFIES[_nm] = ["hist"]
+for _nm, _m in _MODIFIES.items():
+    _c = REG[_nm][0].contract
+    _c.modifies = list(_c.modifies or []) + [x for x in _m if x not in (_c.modifies or [])]
